@@ -199,10 +199,13 @@ def dynslot_rule(chk, db):
         n += 1
         chk.instance("DYNSLOT")
         bad = None
+        span_params = set(p0["n"] for p0 in f["params"] if "span<" in p0["ty"] and ", N>" in p0["ty"].replace(" ,", ","))
+        two_arity = bool(span_params) and f["n"] == "<ctor>"
         for p in SP.paths(f["body"]):
             own_dyn = False
             other_dyn = False
             counted = False
+            arity_known = False
             env = {}
             for ev in p:
                 if ev[0] == "decl" and ev[1].get("init") is not None:
@@ -217,7 +220,13 @@ def dynslot_rule(chk, db):
                     txt = astx.show(ev[1], 80).replace(" ", "")
                     if ev[2] and ("==rank_dynamic()" in txt or "rank_dynamic()==" in txt) and "!=" not in txt:
                         counted = True
+                    if (("N==" in txt or "==N" in txt) and ("rank_dynamic()" in txt or "rank()" in txt)):
+                        arity_known = True
                 for e in SP.event_exprs(ev):
+                    if two_arity and not arity_known and bad is None and ev[0] != "cond" and any(
+                            y.get("k") == "ref" and y.get("n") in span_params for y in astx.walk_expr(e, into_lambdas=True)):
+                        bad = (e, "`%s` reads the argument although the constructor is enabled for both rank() and rank_dynamic() values and "
+                                  "this path has not established which of the two it received" % astx.show(e, 60))
                     for x in astx.walk_expr(e, into_lambdas=True):
                         if x.get("k") == "idx" and "_extents" in astx.show(x["b"], 30) and any(
                                 y.get("k") == "call" and astx.callee(y)[0] == "_dynamic_index" for y in astx.walk_expr(x["i"])):
